@@ -30,7 +30,7 @@ BOUNDED = {
          'permutations satisfying the relators; the presentation is the library\'s own); finite_universal_cover of every connected spherical 2D symbol with <= 4 chambers from the crate\'s generator '
          '(63 symbols; thorough tier: <= 6 chambers, 208 symbols) whose cover has <= 1000 chambers: complete, connected, maps onto the base by a morphism, has size(base) * |pi_1| chambers where |pi_1| '
          'comes from Todd-Coxeter over the TEXTBOOK presentation built by the check itself (one generator per chamber facet, tree facets trivial, one relator per 2-orbit raised to its branching '
-         'number), and (covers of <= 60 chambers) its own textbook presentation is the trivial group; thorough tier: all 2378 2D symbols with <= 8 chambers from the crate\'s generator at k = 4; subgroup_cover for 12 to 60 pseudo-random subgroups (1-3 generators, words of length <= 5) of each of those spherical symbols: complete, maps onto the base by a morphism, size divides the size of the universal cover'),
+         'number), and (covers of <= 60 chambers) its own textbook presentation is the trivial group; thorough tier: all 2378 2D symbols with <= 8 chambers from the crate\'s generator at k = 4; subgroup_cover for 12 to 60 pseudo-random subgroups (1-3 generators, words of length <= 5) of each of those spherical symbols: complete, maps onto the base by a morphism, one sheet per coset (index from a separate coset enumeration with the same generators), size divides the size of the universal cover'),
  'C10': ('(every clause is also decided deductively)', 'all words over 2 generators up to length 5 and all pairs of reduced words up to length 3, exponents -3..3, rotations -3..6'),
  'C11': ('row count against the numeric index [G:H] computed from a permutation representation (the contracts decide the universal property instead); every other clause is ALSO decided deductively',
          '39 fixed presentations (13 groups with <= 3 generators and index <= 60, each also with a redundant extra generator whose relator comes first resp. last), 1800 pseudo-random '
@@ -40,7 +40,7 @@ BOUNDED = {
          'index computed independently from the permutation representation: row count = index, generators act as mutually inverse permutations, transitive, every relator closes at '
          'every row, subgroup generators fix row 0, coset representatives trace to their rows'),
  'C13': ('the stabiliser presentation (Schreier generators, rewritten relators: HashMap / flat_map code outside the verifier) and the row count of the core table; the intersection table and the core table (word-fixing clause) are ALSO decided deductively',
-         'six groups of known order (S3, V4, A4, S4, D4, Z6) with all subgroups generated by pairs of words of length <= 2 (plus the trivial subgroup): core_table: row count = order of the permutation '
+         'nine presentations of known order (S3, V4, A4, S4, D4, Z6, and Z3, S3, Z4 with a redundant generator) with all subgroups generated by pairs of words of length <= 2 (plus the trivial subgroup): core_table: row count = order of the permutation '
          'group generated by the action (closure), and for all words up to length 4-5 "fixes every row of the input" <=> "fixes row 0 of the core"; stabilizer(b, ..) for EVERY base row b of tables with '
          'at most 8 rows (rows 0, 1 and the last one of larger tables): every generator fixes the base row, '
          'the generators generate a subgroup of the index of the table, the returned presentation enumerates to the order |G| / index; intersection_table on all pairs of the first eight tables: row '
